@@ -48,11 +48,11 @@ struct MoveOnly
 };
 
 enum Kind { K_SMALL, K_LARGE, K_THROW, K_MOVEONLY, K_EMPTY };
-enum OpK { O_ASSIGN, O_COPY, O_MOVE, O_RESET, O_SWAP, O_CALL, O_COPYCONS_TMP };
+enum OpK { O_ASSIGN, O_COPY, O_MOVE, O_RESET, O_SWAP, O_CALL, O_COPYCONS_TMP, O_MOVECONS };
 struct Op { int k, a, b; };
 static std::string opstr(Op o)
 {
-    static const char* n[] = {"assign_kind", "copy_assign", "move_assign", "reset", "swap", "call", "copy_construct_temp"};
+    static const char* n[] = {"assign_kind", "copy_assign", "move_assign", "reset", "swap", "call", "copy_construct_temp", "move_construct_temp_then_move_to"};
     char buf[64];
     snprintf(buf, sizeof buf, "%s(%d,%d)", n[o.k], o.a, o.b);
     return buf;
@@ -79,6 +79,7 @@ struct Ref
         case O_COPY: s[o.a] = s[o.b]; break;
         case O_MOVE: if (o.a != o.b) { s[o.a] = s[o.b]; s[o.b] = RSlot{}; } break;
         case O_RESET: s[o.a] = RSlot{}; break;
+        case O_MOVECONS: { RSlot t = s[o.a]; s[o.a] = RSlot{}; if (o.b >= 0) s[o.b] = t; } break;    // F t(std::move(f[a])); [f[b] = std::move(t);]
         case O_SWAP: std::swap(s[0], s[1]); break;
         case O_COPYCONS_TMP: { RSlot t = s[o.a]; if (t.kind == K_EMPTY) last = "bad_function_call"; else if (t.kind == K_THROW) last = "runtime_error"; else last = std::to_string(t.kind * 1000 + t.counter * 10 + 7); } break;
         case O_CALL:
@@ -129,6 +130,7 @@ struct RealFn
         case O_COPY: if constexpr (COPYABLE) f[o.a] = f[o.b]; break;
         case O_MOVE: f[o.a] = std::move(f[o.b]); break;
         case O_RESET: f[o.a].reset(); break;
+        case O_MOVECONS: { F t(std::move(f[o.a])); if (o.b >= 0) f[o.b] = std::move(t); } break;
         case O_SWAP: f[0].swap(f[1]); break;
         case O_COPYCONS_TMP: if constexpr (COPYABLE) { F t(f[o.a]); call(t); } break;
         case O_CALL: call(f[o.a]); break;
@@ -155,14 +157,20 @@ static std::vector<Op> fn_alphabet(bool copyable)
         v.push_back({O_RESET, a, 0});
         v.push_back({O_CALL, a, 0});
         v.push_back({O_COPYCONS_TMP, a, 0});
+        v.push_back({O_MOVECONS, a, -1});       // moved-from by construction, the temporary dies
+        v.push_back({O_MOVECONS, a, a});        // ... and is moved back
+        v.push_back({O_MOVECONS, a, 1 - a});    // ... or on to the other slot
     }
     v.push_back({O_SWAP, 0, 1});
     (void) copyable;
     return v;
 }
 
+// histories up to full_depth are enumerated without de-duplication (a wrapper can be corrupted in a way
+// the reference state does not show, cf. seeds C18-1/C18-2); beyond that the search continues from one
+// representative per reference state
 template <typename RealT>
-static void bfs(int depth, bool copyable)
+static void bfs(int depth, bool copyable, int full_depth = 2)
 {
     auto alpha = fn_alphabet(copyable);
     std::set<std::string> seen;
@@ -218,9 +226,10 @@ static void bfs(int depth, bool copyable)
                 SEQX_CHECK(g_live[i] == 0 && g_ctor[i] == g_dtor[i], "lifetime-ledger", "payload kind %d: %d constructed, %d destroyed, %d alive after the wrappers are gone", i, g_ctor[i], g_dtor[i], g_live[i]);
             Ref nxt = base;
             nxt.apply(op);
-            if (seen.insert(nxt.canon()).second)
+            bool fresh = seen.insert(nxt.canon()).second;
+            if (fresh || (int) hist.size() + 1 <= full_depth)
             {
-                ++seqx::g->states;
+                if (fresh) ++seqx::g->states;
                 auto nh = hist;
                 nh.push_back(op);
                 frontier.push_back(std::move(nh));
@@ -329,8 +338,8 @@ int main(int argc, char** argv)
     using fn_t = pika::util::detail::function<int(int)>;
     using ufn_t = pika::util::detail::unique_function<int(int)>;
     std::vector<seqx::spec> specs = {
-        {"function_histories", [](bool t) { bfs<RealFn<fn_t, true>>(t ? 5 : 4, true); }, "function<int(int)>: histories over 2 slots x {assign small/large/throwing/empty, copy, self-copy, move, reset, swap, call, copy-construct temp}"},
-        {"unique_function_histories", [](bool t) { bfs<RealFn<ufn_t, false>>(t ? 5 : 4, false); }, "unique_function<int(int)>: the same without copies, plus a move-only callable"},
+        {"function_histories", [](bool t) { bfs<RealFn<fn_t, true>>(t ? 6 : 4, true, t ? 4 : 3); }, "function<int(int)>: histories over 2 slots x {assign small/large/throwing/empty, copy, self-copy, move, reset, swap, call, copy-construct temp, move-construct temp (dropped / moved back / moved on)}; all histories up to depth 3 (thorough 4) without de-duplication, beyond that one representative per reference state"},
+        {"unique_function_histories", [](bool t) { bfs<RealFn<ufn_t, false>>(t ? 6 : 4, false, t ? 4 : 3); }, "unique_function<int(int)>: the same without copies, plus a move-only callable"},
         {"any_sender_scripts", [](bool) { sender_grid<ex::any_sender<int>, true>(); }, "any_sender<int>: 12 move/copy/reset/connect scripts x small/large stored sender x value/error/stopped"},
         {"unique_any_sender_scripts", [](bool) { sender_grid<ex::unique_any_sender<int>, false>(); }, "unique_any_sender<int>: the scripts without copies"},
     };
